@@ -41,6 +41,7 @@ def run(ck, prog):
     ck.attempt(_sinks, ck, prog)
     ck.attempt(_polygons, ck, prog)
     ck.attempt(_linear, ck, prog)
+    ck.attempt(_figure_lifecycle, ck, prog)
     ck.floor("forwarding calls checked", ck.analysed.get("forwarding calls checked", 0), 40)
 
 
@@ -80,6 +81,57 @@ def _calls(prog, f, pred=None):
             if c is not None and (pred is None or pred(c)):
                 out.append((n, c))
     return out
+
+
+CONV = {"float", "int", "list", "tuple", "np.array", "np.asarray", "numpy.array", "np.float64"}
+
+
+def origin(f, node, depth=0):
+    """provenance of an expression inside f: ('param', name) | ('call', callee key or dotted text, [origins of args]) | ('index', base origin, [subscript text]) | None.
+    Looks through single-assignment locals, value-preserving conversions (float(x), np.array(x)) and rebindings `x = float(x)`."""
+    if depth > 6 or node is None:
+        return None
+    if isinstance(node, ast.Name):
+        binds = [n for n in ast.walk(f.node) if isinstance(n, ast.Assign) and any(isinstance(t, ast.Name) and t.id == node.id for t in n.targets)]
+        # rebinding through a conversion of itself keeps the provenance
+        binds = [b for b in binds if not (isinstance(b.value, ast.Call) and unparse(b.value.func) in CONV and len(b.value.args) == 1
+                                          and isinstance(b.value.args[0], ast.Name) and b.value.args[0].id == node.id)]
+        # a default filled in when the caller passed nothing (`if len(p) == 0: p = [...]`, `if p is None: p = ...`) keeps the provenance for every
+        # call that did pass the value
+        deflt = set()
+        for st in ast.walk(f.node):
+            if isinstance(st, ast.If) and unparse(st.test).replace(" ", "") in ("len(%s)==0" % node.id, "not%s" % node.id, "%sisNone" % node.id, "%s==[]" % node.id):
+                deflt |= {id(x) for b in st.body for x in ast.walk(b)}
+        binds = [b for b in binds if id(b) not in deflt]
+        other = [n for n in ast.walk(f.node) if id(n) not in deflt and isinstance(n, (ast.AugAssign, ast.For, ast.comprehension)) and any(isinstance(x, ast.Name) and x.id == node.id
+                                                                                                                 for x in ast.walk(n.target))]
+        if node.id in f.params() and not binds and not other:
+            return ("param", node.id)
+        if len(binds) == 1 and not other and node.id not in f.params():
+            return origin(f, binds[0].value, depth + 1)
+        return None
+    if isinstance(node, ast.Call):
+        fn = unparse(node.func)
+        if fn in CONV and len(node.args) == 1 and not node.keywords:
+            return origin(f, node.args[0], depth + 1)
+        return ("call", fn, [origin(f, a, depth + 1) for a in node.args])
+    if isinstance(node, ast.Subscript):
+        b = origin(f, node.value, depth + 1)
+        sl = node.slice
+        txt = ",".join(unparse(e) for e in sl.elts) if isinstance(sl, ast.Tuple) else unparse(sl)
+        return ("index", b, txt.replace(" ", "")) if b is not None else None
+    if isinstance(node, ast.Attribute):
+        return ("attr", unparse(node))
+    if isinstance(node, ast.Constant):
+        return ("const", node.value)
+    return None
+
+
+def _arg(call, i, kw):
+    if len(call.args) > i and not isinstance(call.args[i], ast.Starred):
+        return call.args[i]
+    return next((k.value for k in call.keywords if k.arg == kw), None)
+
 
 
 def _getfig_discipline(ck, f, wrapper_of=None):
@@ -156,6 +208,12 @@ def _plot2_lists(ck, prog, f, call):
               slot="list:%s" % lst, where=f.loc(call))
 
 
+GETTERS = {"fp": {SP + ":SequenceParameters.get_fraction_positive", SEQ + ":Sequence.Fplus"},
+           "fn": {SP + ":SequenceParameters.get_fraction_negative", SEQ + ":Sequence.Fminus"},
+           "hydropathy": {SP + ":SequenceParameters.get_uversky_hydropathy", SEQ + ":Sequence.uverskyHydropathy"},
+           "mean_net_charge": {SP + ":SequenceParameters.get_mean_net_charge", SEQ + ":Sequence.mean_net_charge"}}
+
+
 def _sp_methods(ck, prog):
     coords = {"phaseDiagramPlot": {"fp": "self.get_fraction_positive()", "fn": "self.get_fraction_negative()"},
               "uverskyPlot": {"hydropathy": "self.get_uversky_hydropathy()", "mean_net_charge": "self.get_mean_net_charge()"}}
@@ -165,7 +223,8 @@ def _sp_methods(ck, prog):
         f = prog.fn(SP, "SequenceParameters." + name)
         construct = f.mod.relpath + ":" + f.qual
         calls = _calls(prog, f, lambda c: c.mod.rel == PLT)
-        ck.ob("BIND", construct, len(calls) >= 1 and all(c.name == be for _, c in calls), expected="plotting." + be,
+        ck.shape(len(calls) >= 1, "%s: a call into the plotting backend" % name, f.loc())
+        ck.ob("BIND", construct, all(c.name == be for _, c in calls), expected="plotting." + be,
               found=[c.name for _, c in calls], slot="callee", where=f.loc())
         req = [p for p in f.params() if p in NAMED]
         for call, callee in calls:
@@ -173,7 +232,12 @@ def _sp_methods(ck, prog):
             _, b = bind.bind(prog, f, call)
             for formal, src in coords[name.split("_", 1)[1]].items():
                 a = b.get(formal)
-                ck.ob("PROV", construct, a is not None and unparse(a) == src, expected="%s = %s" % (formal, src), found=unparse(a) if a is not None else None,
+                ck.shape(a is not None, "%s: coordinate '%s' passed to the backend" % (name, formal), f.loc(call))
+                a = bind._resolve_local(f, a)
+                ck.shape(isinstance(a, ast.Call) and prog.resolve_call(f, a) is not None, "%s: coordinate '%s' is the result of a resolvable getter call" % (name, formal), f.loc(call))
+                got = prog.resolve_call(f, a)
+                okc = got.key in GETTERS[formal] and not a.args and not a.keywords
+                ck.ob("PROV", construct, okc, expected="%s = %s" % (formal, src), found=unparse(a),
                       slot="%s@%d" % (formal, call.lineno - f.node.lineno), where=f.loc(call),
                       note="marker coordinates come from the object's own composition getters")
         if name.startswith("show_"):
@@ -205,13 +269,17 @@ def _backend_entry(ck, prog):
         calls = _calls(prog, f, lambda c: c.mod.rel == PLT)
         mk = [(n, c) for n, c in calls if c.name == marker]
         fz = [(n, c) for n, c in calls if c.name == fin]
+        drawing = [c.name for _, c in calls if c.name in ("single_plot", "multiple_plot", "finalize_DasPappu", "finalize_uversky")]
+        ck.shape(len(drawing) == 2, "%s: one marker call and one finalising call" % name, f.loc())
         ck.ob("BIND", construct, len(mk) == 1 and len(fz) == 1, expected="%s then %s" % (marker, fin), found=[c.name for _, c in calls], slot="pipeline", where=f.loc())
         for call, callee in mk:
             forward(ck, prog, f, call, required=[p for p in f.params() if p in ("label", "label_list")] + list(xy.values()))
             _, b = bind.bind(prog, f, call)
             for formal, src in xy.items():
                 a = b.get(formal)
-                ck.ob("PROV", construct, isinstance(a, ast.Name) and a.id == src, expected="%s = %s" % (formal, src), found=unparse(a) if a is not None else None,
+                o = origin(f, a)
+                ck.shape(o is not None and o[0] == "param", "%s: marker coordinate '%s' traced to a parameter" % (name, formal), f.loc(call))
+                ck.ob("PROV", construct, o[1] == src, expected="%s = %s" % (formal, src), found=unparse(a) if a is not None else None,
                       slot="marker-%s" % formal, where=f.loc(call),
                       note="phase diagram: (f+, f-); Uversky: (mean net charge, hydropathy)")
         for call, callee in fz:
@@ -253,46 +321,83 @@ def _backend_entry(ck, prog):
     ck.count("backend entry points", len(spec))
 
 
+def _one_call(ck, f, fn, within=None):
+    calls = [n for n in ast.walk(within or f.node) if isinstance(n, ast.Call) and unparse(n.func) in (fn, fn.replace("plt.", "ax."), fn.replace("plt.", "axes."))]
+    ck.shape(len(calls) == 1, "%s: exactly one %s call" % (f.name, fn), f.loc())
+    return calls[0]
+
+
 def _sinks(ck, prog):
     # single_plot: scatter(x, y) of the (float-converted) parameters; annotation text = label
     f = prog.fn(PLT, "single_plot")
     c = f.mod.relpath + ":" + f.qual
-    sc = [n for n in ast.walk(f.node) if isinstance(n, ast.Call) and unparse(n.func) == "plt.scatter"]
-    ok = len(sc) == 1 and [unparse(a) for a in sc[0].args[:2]] == ["x", "y"]
-    rebind = [unparse(s) for s in f.body() if isinstance(s, ast.Assign) and unparse(s.targets[0]) in ("x", "y")]
-    ok = ok and all(r.replace(" ", "") in ("x=float(x)", "y=float(y)") for r in rebind)
-    ck.ob("PROV-sink", c, ok, expected="plt.scatter(x, y) with x, y the (float-converted) coordinates", found=[unparse(s)[:60] for s in sc] + rebind, slot="scatter", where=f.loc())
-    an = [n for n in ast.walk(f.node) if isinstance(n, ast.Call) and unparse(n.func) == "plt.annotate"]
-    ck.ob("PROV-sink", c, len(an) == 1 and unparse(an[0].args[0]) == "label", expected="plt.annotate(label, ...)", found=[unparse(a)[:50] for a in an], slot="annotate",
-          where=f.loc())
+    sc = _one_call(ck, f, "plt.scatter")
+    got = [origin(f, _arg(sc, 0, "x")), origin(f, _arg(sc, 1, "y"))]
+    ck.shape(all(o is not None and o[0] == "param" for o in got), "single_plot: scatter coordinates traced to parameters", f.loc(sc))
+    ck.ob("PROV-sink", c, [o[1] for o in got] == ["x", "y"], expected="plt.scatter(x, y) with x, y the (float-converted) coordinates", found=unparse(sc)[:60], slot="scatter", where=f.loc(sc))
+    an = _one_call(ck, f, "plt.annotate")
+    o = origin(f, _arg(an, 0, "text") or _arg(an, 0, "s"))
+    ck.shape(o is not None and o[0] == "param", "single_plot: annotation text traced to a parameter", f.loc(an))
+    ck.ob("PROV-sink", c, o[1] == "label", expected="plt.annotate(label, ...)", found=unparse(an)[:50], slot="annotate", where=f.loc(an))
+    xy = _arg(an, 1, "xy")
+    if xy is not None and isinstance(xy, (ast.Tuple, ast.List)) and len(xy.elts) == 2:
+        oo = [origin(f, e) for e in xy.elts]
+        if all(q is not None and q[0] == "param" for q in oo):
+            ck.ob("PROV-sink", c, [q[1] for q in oo] == ["x", "y"], expected="annotation anchored at (x, y)", found=unparse(xy), slot="annotate-xy", where=f.loc(an))
     g = prog.fn(PLT, "multiple_plot")
     c2 = g.mod.relpath + ":" + g.qual
-    loops = [s for s in g.body() if isinstance(s, ast.For) and isinstance(s.iter, ast.Call) and getattr(s.iter.func, "id", "") == "zip"]
-    ok = False
-    if len(loops) == 1:
-        lp = loops[0]
-        zargs = [unparse(a) for a in lp.iter.args]
-        tg = [unparse(e) for e in lp.target.elts] if isinstance(lp.target, ast.Tuple) else []
-        sc = [n for n in ast.walk(lp) if isinstance(n, ast.Call) and unparse(n.func) == "plt.scatter"]
-        an = [n for n in ast.walk(lp) if isinstance(n, ast.Call) and unparse(n.func) == "plt.annotate"]
-        ok = zargs == ["x_list", "y_list", "label_list"] and len(tg) == 3 and len(sc) == 1 and [unparse(a) for a in sc[0].args[:2]] == tg[:2] \
-            and len(an) == 1 and unparse(an[0].args[0]) == tg[2]
-    ck.ob("PROV-sink", c2, ok, expected="for x, y, label in zip(x_list, y_list, label_list): scatter(x, y); annotate(label)", found=ok, slot="scatter", where=g.loc())
+    loops = [s for s in g.body() if isinstance(s, ast.For)]
+    ck.shape(len(loops) == 1, "multiple_plot: one drawing loop", g.loc())
+    lp = loops[0]
+    sc = _one_call(ck, g, "plt.scatter", lp)
+    an = _one_call(ck, g, "plt.annotate", lp)
+
+    def elem(node):
+        """which list parameter is this per-iteration value an element of?"""
+        if isinstance(node, ast.Call) and unparse(node.func) in CONV and len(node.args) == 1:
+            node = node.args[0]
+        if isinstance(lp.iter, ast.Call) and getattr(lp.iter.func, "id", "") == "zip" and isinstance(lp.target, ast.Tuple) and isinstance(node, ast.Name):
+            names = [unparse(e) for e in lp.target.elts]
+            if node.id in names and len(names) == len(lp.iter.args):
+                o = origin(g, lp.iter.args[names.index(node.id)])
+                return o[1] if o and o[0] == "param" else None
+        if isinstance(node, ast.Subscript) and isinstance(lp.target, ast.Name) and unparse(node.slice) == lp.target.id \
+                and isinstance(lp.iter, ast.Call) and getattr(lp.iter.func, "id", "") == "range":
+            o = origin(g, node.value)
+            return o[1] if o and o[0] == "param" else None
+        return None
+    got = [elem(_arg(sc, 0, "x")), elem(_arg(sc, 1, "y")), elem(_arg(an, 0, "text") or _arg(an, 0, "s"))]
+    ck.shape(all(x is not None for x in got), "multiple_plot: per-point coordinates and label traced to the list parameters", g.loc(lp))
+    ck.ob("PROV-sink", c2, got == ["x_list", "y_list", "label_list"], expected="point i: scatter(x_list[i], y_list[i]); annotate(label_list[i])", found=got, slot="scatter", where=g.loc(lp))
     for name in ("finalize_DasPappu", "finalize_uversky"):
         h = prog.fn(PLT, name)
         c3 = h.mod.relpath + ":" + h.qual
-        want = {"plt.title": "title", "plt.xlim": "[0, xLim]", "plt.ylim": "[0, yLim]"}
-        for fn, arg in want.items():
-            calls = [n for n in ast.walk(h.node) if isinstance(n, ast.Call) and unparse(n.func) == fn]
-            ck.ob("PROV-sink", c3, len(calls) == 1 and calls[0].args and unparse(calls[0].args[0]) == arg, expected="%s(%s)" % (fn, arg),
-                  found=[unparse(x)[:50] for x in calls], slot=fn, where=h.loc())
+        want = {"plt.title": ("title", None), "plt.xlim": ("xLim", 1), "plt.ylim": ("yLim", 1)}
+        for fn, (par, pos) in want.items():
+            call = _one_call(ck, h, fn)
+            a = call.args[0] if call.args else None
+            ck.shape(a is not None, "%s: %s has a positional argument" % (name, fn), h.loc(call))
+            if pos is not None:
+                if isinstance(a, (ast.List, ast.Tuple)) and len(a.elts) == 2:
+                    lo, a = a.elts
+                elif len(call.args) == 2:
+                    lo, a = call.args
+                else:
+                    ck.shape(False, "%s: %s given (low, high)" % (name, fn), h.loc(call))
+                ck.shape(isinstance(lo, ast.Constant), "%s: constant lower limit" % name, h.loc(call))
+            o = origin(h, a)
+            ck.shape(o is not None and o[0] in ("param", "const"), "%s: %s argument traced to a parameter or a literal" % (name, fn), h.loc(call))
+            okv = o[1] == par and (pos is None or lo.value == 0)
+            ck.ob("PROV-sink", c3, okv, expected="%s(%s)" % (fn, par if pos is None else "[0, %s]" % par), found=unparse(call)[:50], slot=fn, where=h.loc(call))
         rets = bind.returns_of(h)
-        ck.ob("GETFIG", c3, len(rets) == 1 and unparse(rets[0].value) == h.params()[0], expected="returns the figure it was given", found=[unparse(r.value) for r in rets],
+        ck.shape(len(rets) >= 1 and all(r.value is not None for r in rets), "%s: returns a value" % name, h.loc())
+        oo = [origin(h, r.value) for r in rets]
+        ck.shape(all(o is not None and o[0] == "param" for o in oo), "%s: returned value traced to a parameter" % name, h.loc())
+        ck.ob("GETFIG", c3, all(o[1] == h.params()[0] for o in oo), expected="returns the figure it was given", found=[unparse(r.value) for r in rets],
               slot="returns-figure", where=h.loc())
     ck.count("drawing sinks traced", 2 + 2 + 6)
 
 
-# ------------------------------------------------------------------------------------ polygons
 def _cells_from_classifier(prog):
     """region -> list of convex pieces (each a list of Lin over x=f+, y=f-) from phasePlotRegion's own decision table"""
     pair = Pair(prog, positive=("N",))
@@ -439,29 +544,45 @@ def _linear(ck, prog):
             "build_hydropathy_plot": "linearDistOfHydropathy"}
     api = {"NCPR": "build_NCPR_plot", "FCR": "build_FCR_plot", "Sigma": "build_sigma_plot", "Hydropathy": "build_hydropathy_plot"}
     blp = prog.fn(PLT, "__build_linear_plot")
+    profiles = {SEQ + ":Sequence." + v for v in prof.values()}
     for b, be in prof.items():
         f = prog.fn(PLT, b)
         c = f.mod.relpath + ":" + f.qual
         calls = [n for n in ast.walk(f.node) if isinstance(n, ast.Call) and prog.resolve_call(f, n) is blp]
-        ok = len(calls) == 1 and calls[0].args and unparse(calls[0].args[0]) == "SeqObj.%s(blobLen)" % be
-        ck.ob("PROV", c, ok, expected="bars of SeqObj.%s(blobLen) - the profile get_linear_* returns" % be, found=[unparse(x.args[0]) if x.args else None for x in calls],
-              slot="profile", where=f.loc())
+        ck.shape(len(calls) == 1, "%s: one call of the shared bar-plot builder" % b, f.loc())
+        _, bnd = bind.bind(prog, f, calls[0], blp)
+        a = bind._resolve_local(f, bnd.get(blp.params()[0]))
+        ck.shape(isinstance(a, ast.Call) and isinstance(a.func, ast.Attribute), "%s: plotted data is the result of a method call" % b, f.loc(calls[0]))
+        recv = origin(f, a.func.value)
+        ck.shape(recv is not None and recv[0] == "param", "%s: profile computed on a parameter object" % b, f.loc(calls[0]))
+        ck.shape(a.func.attr.startswith("linearDistOf") and SEQ + ":Sequence." + a.func.attr in {fi.key for fi in prog.all_funcs()}, "%s: a Sequence.linearDistOf* profile" % b, f.loc(calls[0]))
+        wa = [origin(f, x) for x in list(a.args) + [k.value for k in a.keywords]]
+        ok = SEQ + ":Sequence." + a.func.attr == SEQ + ":Sequence." + be and recv[1] == "SeqObj" and len(wa) == 1 and wa[0] == ("param", "blobLen")
+        ck.ob("PROV", c, ok, expected="bars of SeqObj.%s(blobLen) - the profile get_linear_* returns" % be, found=unparse(a), slot="profile", where=f.loc(calls[0]))
         ck.count("forwarding calls checked")
-    bars = [n for n in ast.walk(blp.node) if isinstance(n, ast.Call) and unparse(n.func) == "plt.bar"]
-    ok = len(bars) == 1 and [unparse(a).replace(" ", "") for a in bars[0].args[:2]] == ["data[0,:]", "data[1,:]"]
-    ck.ob("PROV-sink", blp.mod.relpath + ":" + blp.qual, ok, expected="plt.bar(data[0, :], data[1, :]) - one bar per column: position row, value row",
-          found=[unparse(x)[:70] for x in bars], slot="bar", where=blp.loc())
+    bar = _one_call(ck, blp, "plt.bar")
+    args = [_arg(bar, 0, "x"), _arg(bar, 1, "height")]
+    oo = [origin(blp, x) for x in args]
+    ck.shape(all(o is not None and o[0] == "index" and o[1] == ("param", blp.params()[0]) for o in oo), "__build_linear_plot: bar positions and heights are rows of the data parameter", blp.loc(bar))
+    rows = [o[2] for o in oo]
+    ck.shape(all(r in ("0,:", "1,:", "0", "1") for r in rows), "__build_linear_plot: rows selected by constant index", blp.loc(bar))
+    ck.ob("PROV-sink", blp.mod.relpath + ":" + blp.qual, [r[0] for r in rows] == ["0", "1"], expected="plt.bar(data[0, :], data[1, :]) - one bar per column: position row, value row",
+          found=unparse(bar)[:70], slot="bar", where=blp.loc(bar))
     for kind in ("show", "save"):
         for nm, b in api.items():
             f = prog.fn(SP, "SequenceParameters.%s_linear%s" % (kind, nm))
             c = f.mod.relpath + ":" + f.qual
-            calls = _calls(prog, f, lambda cc: cc.mod.rel == PLT and cc.name == "%s_linearplot" % kind)
-            ok = len(calls) == 1
+            calls = _calls(prog, f, lambda cc: cc.mod.rel == PLT)
+            ck.shape(len(calls) == 1, "%s: one call into the plotting backend" % f.name, f.loc())
+            call, callee = calls[0]
+            ok = callee.name == "%s_linearplot" % kind
             if ok:
-                call = calls[0][0]
                 forward(ck, prog, f, call, required=[p for p in f.params() if p in ("blobLen", "getFig", "filename")])
                 _, bnd = bind.bind(prog, f, call)
-                ok = unparse(bnd.get("build_fun")) == "plotting." + b and unparse(bnd.get("SeqObj")) == "self.SeqObj"
+                bf = bnd.get("build_fun")
+                ck.shape(isinstance(bf, (ast.Attribute, ast.Name)) and prog.has_fn(PLT, unparse(bf).split(".")[-1]),
+                         "%s: build_fun is a reference to a plotting builder" % f.name, f.loc(call))
+                ok = unparse(bf).split(".")[-1] == b and unparse(bnd.get("SeqObj")) == "self.SeqObj"
             ck.ob("BIND", c, ok, expected="plotting.%s_linearplot(plotting.%s, self.SeqObj, blobLen, ...)" % (kind, b),
                   found=[unparse(x[0])[:80] for x in calls], slot="forwards", where=f.loc())
             if kind == "show":
@@ -470,11 +591,81 @@ def _linear(ck, prog):
         f = prog.fn(PLT, name)
         c = f.mod.relpath + ":" + f.qual
         calls = [n for n in ast.walk(f.node) if isinstance(n, ast.Call) and unparse(n.func) == "build_fun"]
-        ok = len(calls) == 1 and [unparse(a) for a in calls[0].args] == ["SeqObj", "blobLen"]
-        ck.ob("BIND", c, ok, expected="build_fun(SeqObj, blobLen)", found=[unparse(x) for x in calls], slot="builder-call", where=f.loc())
+        ck.shape(len(calls) == 1, "%s: one call of the builder it was handed" % name, f.loc())
+        oo = [origin(f, a) for a in calls[0].args] + [origin(f, k.value) for k in calls[0].keywords]
+        ck.shape(all(o is not None and o[0] == "param" for o in oo), "%s: builder arguments traced to parameters" % name, f.loc(calls[0]))
+        ok = [o[1] for o in oo] == ["SeqObj", "blobLen"] and not calls[0].keywords
+        ck.ob("BIND", c, ok, expected="build_fun(SeqObj, blobLen)", found=unparse(calls[0]), slot="builder-call", where=f.loc(calls[0]))
         if name.startswith("show"):
             _getfig_discipline(ck, f)
     ck.count("linear plot entry points", 8)
+
+
+# ------------------------------------------------------------------------------------ figure lifecycle
+SAVE_ENTRIES = ("save_single_phasePlot", "save_multiple_phasePlot", "save_single_uverskyPlot", "save_multiple_uverskyPlot", "save_linearplot")
+DRAW_ROOTS = ("single_plot", "multiple_plot", "__build_linear_plot")
+FRESH = {"plt.figure", "plt.clf", "plt.subplots", "plt.close"}
+
+
+def _figure_lifecycle(ck, prog):
+    """PAIR-close (FLOW typestate, helpers summarised): all drawing goes to pyplot's implicit current figure, so a save entry point that returns
+    with the figure still open leaves its markers, polygons and bars under the next plot.  Each save entry point must reach `close` on every path
+    after `savefig` - unless every drawing routine itself starts from a fresh figure."""
+    from lcsa import flow
+    memo = {}
+
+    def summarise(fi, depth=0):
+        """in-state -> frozenset of out-states at the function's exits; states: none / saved / closed"""
+        if fi.key in memo:
+            return memo[fi.key]
+        memo[fi.key] = {x: frozenset([x]) for x in ("none", "saved", "closed")}      # recursion guard: identity
+        seen_save = [False]
+
+        def step(node, S):
+            out = set(S)
+            for c in sorted(flow.calls_in(node), key=lambda c: (c.lineno, c.col_offset)):
+                attr = c.func.attr if isinstance(c.func, ast.Attribute) else None
+                if attr == "savefig":
+                    out = {"saved"}
+                    seen_save[0] = True
+                elif attr == "close":
+                    out = {"closed"}
+                else:
+                    callee = prog.resolve_call(fi, c)
+                    if callee is not None and callee.mod.rel == PLT and depth < 5 and callee.key != fi.key:
+                        sm = summarise(callee, depth + 1)
+                        out = set().union(*[sm[x] for x in out])
+            return frozenset(out)
+        res = {}
+        for x in ("none", "saved", "closed"):
+            fall, exits = flow.run(fi.body(), frozenset([x]), step)
+            outs = set()
+            for S in fall:
+                outs |= S
+            for e in exits:
+                if e.kind == "return":
+                    outs |= e.state
+            res[x] = frozenset(outs)
+        memo[fi.key] = res
+        return res
+
+    def fresh_start(fi):
+        calls = sorted((c for c in ast.walk(fi.node) if isinstance(c, ast.Call) and unparse(c.func).startswith("plt.")), key=lambda c: (c.lineno, c.col_offset))
+        return bool(calls) and unparse(calls[0].func) in FRESH
+    roots = [prog.fn(PLT, r) for r in DRAW_ROOTS]
+    waived = all(fresh_start(r) for r in roots)
+    for name in SAVE_ENTRIES:
+        f = prog.fn(PLT, name)
+        construct = f.mod.relpath + ":" + f.qual
+        sm = summarise(f)
+        out = sm["none"]
+        ck.shape("saved" in out or "closed" in out, "%s: a savefig call is reached" % name, f.loc())
+        ok = "saved" not in out or waived
+        ck.ob("PAIR-close", construct, ok, expected="after savefig every path closes the figure before returning (or every drawing routine starts on a fresh figure)",
+              found={"states_at_exit": sorted(out), "drawing_routines_start_fresh": waived}, slot="close-after-save", where=f.loc(),
+              note="an open figure is reused by the next plot: its file then shows two markers / ten regions / two profiles")
+        ck.count("save entry points (lifecycle)")
+    ck.floor("save entry points (lifecycle)", ck.analysed.get("save entry points (lifecycle)", 0), 5)
 
 
 def run_thorough(ck, prog):
